@@ -214,6 +214,42 @@ def gen_scope_case(rng):
 
 # names that look like the compiler's MONOMORPHISATION labels (<generic>_mono_<argument signature>_<result signature>) given to an unrelated
 # user function or closure next to an explicitly generic function called at that signature (response to seeded change C16c)
+def gen_self_name_case(rng):
+    """a RECURSIVE function with inner binders in nested scopes (lambda parameters, block-local lets) before and after the recursive call; the
+    renamed variant gives one such binder the function's OWN name (capture-free: that scope never mentions the function).  Response to seeded
+    change C16d (a recursion check that lost track of an inner lambda's scope)."""
+    r = rng
+    fname = r.choice(["fact", "tri", "walk", "acc", "go"])
+    c = [r.range(1, 5) for _ in range(6)]
+    inner = []          # (kind, binder placeholder index, text using {B})
+    n_inner = r.range(1, 3)
+    kinds = [r.choice(["lambda", "lambda", "block", "lambda2"]) for _ in range(n_inner)]
+    where = [r.choice(["before", "before", "after"]) for _ in range(n_inner)]
+    target = r.below(n_inner)
+    depth = r.range(1, 3)
+    def render(ren):
+        pre, post, uses = [], [], []
+        for i, (k, w) in enumerate(zip(kinds, where)):
+            b = ren.get(i, "k%d" % i)
+            if k == "lambda":
+                line = "  let h%d = |%s| %s + %d.0" % (i, b, b, c[i]); use = "h%d(n)" % i
+            elif k == "lambda2":
+                line = "  let h%d = |%s, q%d| %s * %d.0 + q%d" % (i, b, i, b, c[i], i); use = "h%d(n, %d.0)" % (i, c[i + 1])
+            else:
+                line = "  let h%d = { let %s = n * %d.0\n    %s + 1.0 }" % (i, b, c[i], b); use = "h%d" % i
+            (pre if w == "before" else post).append(line); uses.append((w, use))
+        before_uses = " + ".join(u for w, u in uses if w == "before") or "0.0"
+        after_uses = " + ".join(u for w, u in uses if w == "after") or "0.0"
+        L = ["fn %s(n){" % fname] + pre
+        L.append("  let rec_part = if (n > 0.0) { %s(n - 1.0) + %s } else { %d.0 }" % (fname, before_uses, c[4]))
+        L += post
+        L.append("  rec_part + %s" % after_uses)
+        L.append("}")
+        L.append("fn dsp(){\n  %s(%d.0) + now\n}" % (fname, depth))
+        return "\n".join(L) + "\n"
+    return render({}), render({target: fname}), "inner binder %d (%s, %s the recursive call) renamed to the function's own name %s" % (target, kinds[target], where[target], fname)
+
+
 def gen_mono_label_case(rng):
     g = rng.choice(["ident", "pick", "pass"])
     at = rng.choice(["num", "tup"])
@@ -325,6 +361,11 @@ def run(ck):
         o_src, r_src, _d = gen_mono_label_case(rng.fork(("mono-label", mi)))
         reqs.append({"src": o_src, "n": 3, "state": False}); meta.append((mbase + mi, "orig"))
         reqs.append({"src": r_src, "n": 3, "state": False}); meta.append((mbase + mi, "mono-label-rename"))
+    nbase = mbase + (40 if quick else 400)
+    for ni in range(40 if quick else 400):
+        o_src, r_src, _d = gen_self_name_case(rng.fork(("self-name", ni)))
+        reqs.append({"src": o_src, "n": 3, "state": False}); meta.append((nbase + ni, "orig"))
+        reqs.append({"src": r_src, "n": 3, "state": False}); meta.append((nbase + ni, "self-name-rename"))
     res = run_impl(iexe, reqs, timeout_per_batch=400)
     stats = {}
     def bump(k, n=1): stats[k] = stats.get(k, 0) + n
